@@ -50,7 +50,7 @@ def required_counters(tier):
         "sig.kwonly": 100,
         "sig.varkw": 100,
         "sig.defaults": 200,
-        "sig.hostile_names": 500,
+        "sig.hostile_names": 500, "sig.arg_symbolic": 100,
         "exc.propagated": 100,
         "metadata.compared": 500,
     }
@@ -130,8 +130,21 @@ def make_values(rng, params, well_typed=True):
 
     vals, defaults, anns = {}, {}, {}
     size = 3
+    # sometimes one array parameter's axis is the *value* of an int parameter ("{name}"):
+    # needs the call's arguments, defaults included, to reach the symbolic evaluation
+    ints = [p for p in params if p["ann"] == "int" and p["kind"] in ("posonly", "pk", "kwonly")]
+    arrs = [p for p in params if p["ann"] == "arr" and p["kind"] in ("posonly", "pk", "kwonly")]
+    link = None
+    if ints and arrs and rng.random() < 0.6:
+        link = (rng.choice(ints)["name"], rng.choice(arrs)["name"], rng.choice((1, 2, 4)))
     for i, p in enumerate(params):
-        if p["ann"] == "arr":
+        if link and p["name"] == link[1]:
+            anns[i] = jaxtyping.Float[np.ndarray, "{" + link[0] + "}"]
+            mk = lambda: np.zeros((link[2],), dtype="float32")
+        elif link and p["name"] == link[0]:
+            anns[i] = int
+            mk = lambda: int(str(link[2]))  # equal value for the argument and the default
+        elif p["ann"] == "arr":
             anns[i] = jaxtyping.Float[np.ndarray, "a"]
             mk = lambda: np.zeros((size,), dtype="float32")
         elif p["ann"] == "int":
@@ -208,6 +221,8 @@ def run_case(rec, rng, rngkey=None):
     style = "new" if rng.random() < 0.85 or kind != "def" or desc != "function" else "old"
     raise_exc = rng.random() < 0.2
     vals, defaults, anns = make_values(rng, params)
+    if any("{" in getattr(a, "dim_str", "") for a in anns.values()):
+        rec.count("sig.arg_symbolic")
     RES = rng.choice((object(), [1, 2], {"k": 1}, np.zeros(2), (1, 2), "text"))
     EXC = Boom("from the body") if raise_exc else None
     ns = {"_jtv_REC": [], "_jtv_RES": RES, "_jtv_EXC": EXC, "__name__": "jtv_c07_generated"}
@@ -330,7 +345,10 @@ def run_case(rec, rng, rngkey=None):
         if o2[0] != o1[0] or o2[1] is not o1[1]:
             rec.violation("result-identity", case, f"plain {o1[0]} {type(o1[1]).__name__} vs decorated {o2[0]} {type(o2[1]).__name__}: {str(o2[1])[:200]}", mechanism=f"result-{o1[0]}-vs-{o2[0]}-{type(o2[1]).__name__}")
     # (2) ill-typed call: break one annotated positional/keyword value
-    ann_params = [p for i, p in enumerate(params) if i in anns and p["kind"] in ("posonly", "pk", "kwonly")]
+    linked_ints = {n for a in anns.values() for n in [getattr(a, "dim_str", "")[1:-1]] if "{" in getattr(a, "dim_str", "")}
+    # (an int parameter whose value feeds a "{name}" axis is not made ill-typed: a non-int there makes the
+    #  symbolic expression itself malformed, which the property does not speak about)
+    ann_params = [p for i, p in enumerate(params) if i in anns and p["kind"] in ("posonly", "pk", "kwonly") and p["name"] not in linked_ints]
     if ann_params and kind != "lambda" or (ann_params and kind == "lambda"):
         bad_vals = dict(vals)
         p = rng.choice(ann_params)
